@@ -10,7 +10,20 @@ namespace {
 const std::vector<std::string> OPS = {
     "get_chunk", "put_chunk", "get_atmost", "put_atmost", "get_octet", "put_octet",
     "cbc", "n_cbc", "drain_cbc", "sts_some", "sts_atmost", "sts_n", "sts_drain",
-    "some_aux", "atmost_aux", "n_aux", "drain_aux"};
+    "some_aux", "atmost_aux", "n_aux", "drain_aux",
+    "some_gb", "atmost_gb", "n_gb", "drain_gb"};   // sts_* with a source that implements the getbuffer extension (it lends its own window)
+
+// the long haul: 2^32 and more octets really moved one by one (thorough tier, one plan per batch). Octet drivers that compute the
+// stream instead of storing it and log nothing per call - each octet still costs a real source call and a real sink call.
+struct LongDrv {
+    Ctx *c = nullptr; uint64_t produced = 0, consumed = 0, limit = 0; bool order_ok = true;
+    static unsigned char at(uint64_t i) { return (unsigned char)(i * 131u + (i >> 8) * 7u + 5u); }
+    static int src(void *d, void *out) { LongDrv *m = (LongDrv *)d; m->c->step_budget(); if (m->produced >= m->limit) return -ENODATA; *(unsigned char *)out = at(m->produced++); return 1; }
+    static int snk(void *d, unsigned char x) { LongDrv *m = (LongDrv *)d; m->c->step_budget(); if (x != at(m->consumed)) m->order_ok = false; m->consumed++; return 1; }
+};
+
+static ByteBuffer *g_lent = nullptr;
+static ByteBuffer lend_buffer(Source *) { return *g_lent; }
 
 // Transfers of 2^31 octets and more (every N up to SSIZE_MAX is a valid count): a chunk-style driver over a reserved address range
 // that nobody ever touches. The endpoint layer only forwards pointers and counts to a chunk driver, so the driver can check that it
@@ -23,9 +36,10 @@ struct EpHarness : Harness {
     std::vector<std::string> props() const override { return {"C17"}; }
     std::vector<std::string> probes(const std::string &) const override {
         return {"eintr_retried", "eagain_retried", "zero_return_retried", "partial_then_rest", "hard_error_after_prefix", "octet_driver_through_chunk_api",
-                "chunk_driver_through_octet_api", "aux_smaller_than_n_multiple_rounds", "drain_end_mid_chunk", "drain_to_end_of_stream", "invalid_count_refused", "huge_transfer_in_one_call", "huge_transfer_in_pieces", "huge_piece_of_4gib_or_more"};
+                "chunk_driver_through_octet_api", "aux_smaller_than_n_multiple_rounds", "drain_end_mid_chunk", "drain_to_end_of_stream", "invalid_count_refused", "source_lends_its_buffer", "count_of_64k_octets_or_more_really_moved", "huge_transfer_in_one_call", "huge_transfer_in_pieces", "huge_piece_of_4gib_or_more"};
     }
     uint64_t runs(const std::string &, const Tier &t) const override { return t.thorough() ? 12000000 : 3000000; }
+    unsigned time_limit(const Json &plan) const override { const Json &ops = plan.get("ops"); for (size_t i = 0; i < ops.size(); ++i) if (ops.at(i).gets("op") == "n_cbc_long") return 1500; return 60; }
 
     Json describe(const std::string &) const override {
         Json d = Json::obj();
@@ -39,7 +53,7 @@ struct EpHarness : Harness {
         Json as = Json::arr();
         as.push("nothing is demanded about the source position after a call that returned an error; the model resynchronises on the drivers' cursors");
         as.push("source_get_octet/sink_put_octet are pass-through: only 'result equals the driver's result' is checked");
-        as.push("the getbuffer extension has no implementer in the repository; sts_some/atmost/n/drain are simulated on their documented fallback path only");
+        as.push("the getbuffer extension has no implementer in the repository: sts_some/atmost/n/drain run on their fallback path and, with a scripted source that lends its own window (source-side extension), on the fast path; the sink-side extension is not simulated (sts_atmost_via_sink never tells the sink how much was written into the buffer it lent, so no sink could implement it meaningfully)");
         as.push("plumbing may fail with a transient error (EINTR/EAGAIN) produced by a driver; then only 'error returned, sink holds a prefix' is demanded");
         as.push("auxiliary buffers always have a non-empty designated region [offset, used)");
         as.push("transfers of 2^31 octets and more run through a chunk-style driver over a reserved, never-touched address range: pointers and counts are checked, no octet is stored; octet-style drivers and the plumbing are not run at that size");
@@ -70,8 +84,13 @@ struct EpHarness : Harness {
         return s;
     }
 
-    Json gen(const std::string &, Rng &r, const Tier &t, uint64_t) override {
+    Json gen(const std::string &, Rng &r, const Tier &t, uint64_t idx) override {
         Json p = Json::obj();
+        if (t.thorough() && idx == 0) {   // one long haul per thorough batch
+            Json o = Json::obj(); o["op"] = "n_cbc_long"; o["n"] = (long long)((1ll << 32) + 3);
+            Json ops = Json::arr(); ops.push(o); p["ops"] = ops; p["len"] = 0; p["src_octet"] = true; p["snk_octet"] = true;
+            return p;
+        }
         bool so = r.chance(1, 2), ko = r.chance(1, 2);
         p["src_octet"] = so; p["snk_octet"] = ko;
         int maxn = t.thorough() ? (r.chance(1, 8) ? 4096 : (r.chance(1, 3) ? 64 : 6)) : 6;
@@ -100,12 +119,13 @@ struct EpHarness : Harness {
             }
             o["op"] = k;
             int64_t n = r.chance(1, 3) ? r.range(1, 3) : r.range(1, maxn);
+            if (r.chance(1, t.thorough() ? 2000 : 8000)) { static const int64_t BIG[] = {65535, 65536, 65537, 70000}; n = BIG[r.below(4)]; }   // counts that do not fit 16 bits, really moved
             bool chunky = k == "get_chunk" || k == "put_chunk";
             if (chunky && r.chance(1, 24)) n = r.chance(1, 2) ? 0 : -1;  // invalid counts: 0 and SSIZE_MAX+1
             o["n"] = (long long)n;
             o["ss"] = gen_script(r, maxscript, hard, so);
             o["ks"] = gen_script(r, maxscript, hard, ko);
-            if (k.size() > 4 && k.compare(k.size() - 4, 4, "_aux") == 0) {
+            if (k.size() > 4 && (k.compare(k.size() - 4, 4, "_aux") == 0 || k.compare(k.size() - 3, 3, "_gb") == 0)) {
                 int64_t size = r.range(1, t.thorough() ? 64 : 8);
                 int64_t used = r.range(1, size), off = r.range(0, used - 1);
                 Json a = Json::arr(); a.push((long long)size); a.push((long long)used); a.push((long long)off);
@@ -179,7 +199,8 @@ struct EpHarness : Harness {
         int64_t nraw = o.geti("n", 1);
         bool invalid = nraw <= 0;
         size_t n = nraw < 0 ? (size_t)SSIZE_MAX + 1u : (size_t)nraw;
-        if (n > (1u << 16) && !invalid) n = 1u << 16;
+        if (n > (1u << 17) && !invalid) n = 1u << 17;
+        if (n >= 65536 && !invalid && op.find("_huge") == std::string::npos) COUNT("probe.count_of_64k_octets_or_more_really_moved");
         R.src.begin_op(o.get("ss")); R.snk.begin_op(o.get("ks"));
         const size_t sp0 = R.src.pos;
         const size_t remaining = R.src.data.size() - sp0;
@@ -193,6 +214,18 @@ struct EpHarness : Harness {
         c.ops_done++;
         c.execs++;
 
+        if (op == "n_cbc_long") {
+            uint64_t N = nraw < 1 ? 1 : (uint64_t)nraw; if (N > (1ull << 33)) N = 1ull << 33;
+            LongDrv D; D.c = &c; D.limit = N + 64;
+            Source ls; Sink lk; octet_source_init(&ls, LongDrv::src, &D); octet_sink_init(&lk, LongDrv::snk, &D);
+            finished = WITH_BUDGET(c, 2 * N + 256, rc = sts_n_cbc(&ls, &lk, (size_t)N));
+            c.ev(EV_API, 11, (uint64_t)rc, D.consumed);
+            if (!finished) { R.fail("noprogress", "counted per-octet transfer of %llu octets did not return (%llu moved)", (unsigned long long)N, (unsigned long long)D.consumed); return; }
+            if (rc != (ssize_t)N || D.produced != N || D.consumed != N) R.fail("count", "asked to move %llu octets one by one: returned %zd, %llu taken from the source, %llu reached the sink", (unsigned long long)N, rc, (unsigned long long)D.produced, (unsigned long long)D.consumed);
+            else if (!D.order_ok) R.fail("data", "octets reached the sink out of order");
+            else if (N >= (1ull << 32)) COUNT("probe.per_octet_transfer_of_4gib_or_more");
+            return;
+        }
         if (op.size() > 5 && op.compare(op.size() - 5, 5, "_huge") == 0) {
             c.ops_done--; c.execs--;
             unsigned char *base = huge_base();
@@ -348,7 +381,8 @@ struct EpHarness : Harness {
         }
 
         // ---------------- source-to-sink plumbing
-        bool is_aux = op.size() > 4 && op.compare(op.size() - 4, 4, "_aux") == 0;
+        const bool is_gb = op.size() > 3 && op.compare(op.size() - 3, 3, "_gb") == 0;
+        bool is_aux = is_gb || (op.size() > 4 && op.compare(op.size() - 4, 4, "_aux") == 0);
         int64_t asz = 1, aus = 1, aof = 0;
         if (is_aux) {
             const Json &a = o.get("aux");
@@ -374,6 +408,14 @@ struct EpHarness : Harness {
         else if (op == "atmost_aux") { kind = ATMOST; finished = WITH_BUDGET(c, budget, rc = sts_atmost_aux(&R.source, &R.sink, &ab, n)); }
         else if (op == "n_aux") { kind = EXACT; finished = WITH_BUDGET(c, budget + 8 * n, rc = sts_n_aux(&R.source, &R.sink, &ab, n)); }
         else if (op == "drain_aux") { kind = DRAIN; finished = WITH_BUDGET(c, drain_budget, rc = sts_drain_aux(&R.source, &R.sink, &ab)); }
+        else if (is_gb) {
+            g_lent = &ab; R.source.ext.getbuffer = lend_buffer; COUNT("probe.source_lends_its_buffer");
+            if (op == "some_gb") { kind = SOME; finished = WITH_BUDGET(c, budget, rc = sts_some(&R.source, &R.sink)); }
+            else if (op == "atmost_gb") { kind = ATMOST; finished = WITH_BUDGET(c, budget, rc = sts_atmost(&R.source, &R.sink, n)); }
+            else if (op == "n_gb") { kind = EXACT; finished = WITH_BUDGET(c, budget + 8 * n, rc = sts_n(&R.source, &R.sink, n)); }
+            else { kind = DRAIN; finished = WITH_BUDGET(c, drain_budget, rc = sts_drain(&R.source, &R.sink)); }
+            R.source.ext.getbuffer = nullptr; g_lent = nullptr;
+        }
         else { c.ops_done--; c.execs--; return; }
         c.ev(EV_API, 5, (uint64_t)rc, finished);
         if (!finished) { R.fail("noprogress", "no return within the step budget after the scripts ended"); R.resync(); return; }
@@ -386,7 +428,7 @@ struct EpHarness : Harness {
             size_t lo = (size_t)aof, hi = (size_t)aus;
             bool ok = true; size_t where = 0;
             for (size_t i = 0; i < aux.n; ++i) {
-                bool allowed = (i >= lo && i < hi) || ((kind == EXACT || kind == DRAIN) && i < region);
+                bool allowed = (i >= lo && i < hi) || (!is_gb && (kind == EXACT || kind == DRAIN) && i < region);
                 if (!allowed && aux.p[i] != aux.shadow[i]) { ok = false; where = i; break; }
             }
             if (!ok) R.fail("auxregion", "auxiliary octet %zu outside the designated region [%lld,%lld) was modified", where, (long long)aof, (long long)aus);
